@@ -189,6 +189,15 @@ theorem neg_builds (ρ : Env) (self : Expr) (s : Rat) (hs : eval ρ self = .ok (
   simp only [eval, hs, UnOp.eval]
   exact this
 
+/-! ### vector expressions -/
+
+/-- **An `ExpressionVector` evaluates every entry in the same scope**: the vector literal of the
+entries has the array of the entries' (scalar) values, in order. -/
+theorem eval_vec (ρ : Env) (es : List Expr) (ss : List Sc)
+    (h : es.map (eval ρ) = ss.map (fun s => .ok (.sc s))) :
+    eval ρ (Expr.vec es) = .ok (.vec ss) :=
+  eval_vec_aux ρ es ss h
+
 /-! ### arrays of sample times -/
 
 /-- **Element-wise evaluation.** For a formula built from scalar constants, names, the element-wise
